@@ -323,6 +323,8 @@ func DefaultConsFamilies(quick bool, byzantine bool) ConsFamilies {
 			{W: WV(1, 1, 1, 1), Epoch: 1, MinSleep: 2, MaxSleep: 4, Tail: 4, DropInFirstRound: true, Rots: 2},
 		}
 		if byzantine {
+			// two light forkers whose canonical order (by weight) is not their ID order, heavy honest validators
+			f.Sleepers = append(f.Sleepers, SleeperCfg{W: WV(1, 2, 10, 10), Epoch: 1, MinSleep: 2, MaxSleep: 2, Tail: 4, Forks: true, TwoForkers: true, Rots: 1})
 			all(WV(1, 1, 1), 5, 2, false)
 			all(WV(3, 1), 5, 2, false)
 			f.Rounds = append(f.Rounds, RoundCfg{W: WV(1, 1, 1), Epoch: 1, R: 6, Dev: 0, Fork: true, ForkerAny: true})
